@@ -566,7 +566,26 @@ func runReplay(file string, verbose bool) int {
 	}
 	if verbose {
 		fmt.Printf("REPLAY: violation class=%s key=%s task=%d op=%d %s\n%s\n", v.Class, v.Key(), v.Task, v.Op, v.OpSpec, indent(truncate(v.Detail, 3000)))
+		fmt.Printf("  shared object: %s", rp.Workload.Codec)
+		if len(rp.Workload.Warm) > 0 {
+			fmt.Printf(", warmed by %v", opsStrings(rp.Workload.Warm))
+		}
+		fmt.Println()
+		for t, ops := range rp.Workload.Tasks {
+			fmt.Printf("  T%d: %s\n", t, strings.Join(opsStrings(ops), "; "))
+		}
 		fmt.Printf("  schedule: %d yields, %d switches, signature %016x\n", r.Stats.Yields, r.Stats.Switches, r.Sig)
+		if len(r.Switches) > 0 && len(r.Switches) <= 40 {
+			var sw []string
+			for _, x := range r.Switches {
+				if x.From < 0 {
+					sw = append(sw, fmt.Sprintf("start T%d", x.To))
+				} else {
+					sw = append(sw, fmt.Sprintf("T%d after its yield #%d -> T%d", x.From, x.At, x.To))
+				}
+			}
+			fmt.Printf("  switches: %s\n", strings.Join(sw, ", "))
+		}
 		if rp.Sig != "" && !rp.Minimised && rp.Sig != fmt.Sprintf("%016x", r.Sig) {
 			fmt.Printf("  NOTE: schedule signature differs from the recorded one (%s): the tree changed the yield sequence\n", rp.Sig)
 		}
